@@ -16,16 +16,19 @@ PROP = 'C14'
 RELS = {'en': 'depccg/grammar/en.py', 'ja': 'depccg/grammar/ja.py'}
 
 
-def purity_scan():
+def purity_scan(prop=None, rels=('depccg/grammar/en.py', 'depccg/grammar/ja.py', 'depccg/unification.py', 'depccg/cat.py'), exclude=(), imports=True):
     """frame obligations, decided on the ast: no function reachable from rule application stores to a module-level name, declares
-    global/nonlocal state outside its own closure, or calls id()/hash()/random; categories are frozen dataclasses (C13)."""
+    global/nonlocal state outside its own closure, or calls id()/hash()/random; categories are frozen dataclasses (C13).
+    exclude: top-level functions of the module that are outside the obligation; imports=False skips the module-import clause."""
+    prop = prop or PROP
     recs = []
-    for rel in ('depccg/grammar/en.py', 'depccg/grammar/ja.py', 'depccg/unification.py', 'depccg/cat.py'):
+    for rel in rels:
         tree = parse_source(rel)
+        skip = {id(n) for fn in tree.body if isinstance(fn, ast.FunctionDef) and fn.name in exclude for n in ast.walk(fn)}
         top = {t.id for st in tree.body if isinstance(st, (ast.Assign, ast.AnnAssign)) for t in (st.targets if isinstance(st, ast.Assign) else [st.target]) if isinstance(t, ast.Name)}
         problems = []
         for fn in ast.walk(tree):
-            if not isinstance(fn, (ast.FunctionDef, ast.Lambda)):
+            if not isinstance(fn, (ast.FunctionDef, ast.Lambda)) or id(fn) in skip:
                 continue
             for n in ast.walk(fn):
                 if isinstance(n, ast.Global):
@@ -47,12 +50,12 @@ def purity_scan():
                         problems.append(f'{rel}:{n.lineno} mutation of module-level {f.value.id}')
                     if isinstance(f, ast.Attribute) and isinstance(f.value, ast.Name) and f.value.id in ('random', 'time', 'os', 'sys'):
                         problems.append(f'{rel}:{n.lineno} call into {f.value.id}')
-        for imp in ast.walk(tree):
+        for imp in (ast.walk(tree) if imports else ()):
             if isinstance(imp, (ast.Import, ast.ImportFrom)):
                 names = [a.name for a in imp.names] + ([imp.module] if isinstance(imp, ast.ImportFrom) and imp.module else [])
                 if any(n.split('.')[0] in ('random', 'time', 'threading', 'multiprocessing') for n in names):
                     problems.append(f'{rel}:{imp.lineno} imports a source of nondeterminism')
-        recs.append(dict(name=f'{PROP}/{rel}/frame: no store to module state, no identity/hash/clock/random dependence', kind='frame',
+        recs.append(dict(name=f'{prop}/{rel}/frame: no store to module state, no identity/hash/clock/random dependence', kind='frame',
                          verdict='discharged' if not problems else 'failed', backend='pyvc-structural', ms=0, inputs=None, detail=problems or None,
                          witness=dict(sites=problems) if problems else None))
     return recs
